@@ -6,7 +6,7 @@ From FT.lib Require Import Num Arr ArrLemmas Lower NumArr.
 From FT.gen Require Import Common Fteik2d Fteik3d.
 From Coq Require Import Reals.
 From FT.proofs Require Import Sweep2dProofs Sweep3dProofs Solve2dProofs Solve3dProofs.
-From FT.proofs Require OperatorsR NonNeg2d Pos2d NonNeg3d Pos3d GridPath SourceCell ApiGenEq.
+From FT.proofs Require OperatorsR NonNeg2d Pos2d NonNeg3d Pos3d GridPath SourceCell ApiGenEq DivSafe.
 Import ListNotations.
 Open Scope Z_scope.
 
@@ -1455,6 +1455,40 @@ Theorem C03_solve_result_wiring_3d :
        map fst ApiGen.solve_3d_result_multi = snd ApiGen.solve_3d_result_ctor.
 Proof. exact @ApiGenEq.gen_solve_3d_result. Qed.
 
+(* completes without raising, with respect to ZeroDivisionError (the obligation semantics f_ok false true: every divisor on the executed path is non-zero), exact arithmetic: one 2D node update, for positive spacings and ANY arrays, slowness values, indices, signs, flag *)
+Theorem C03_no_zero_divisor_in_a_node_update_2d :
+  forall (tt : arr R) (ttsgn : arr Z) (slow : arr R) (dz dx dzi dxi dz2i dx2i zsi xsi zsa xsa vzero : R)
+         (i j sgnvz sgnvx sgntz sgntx nz nx : Z) (grad : bool),
+       (0 < dz)%R ->
+       (0 < dx)%R ->
+       (0 < dz2i)%R ->
+       (0 < dx2i)%R ->
+       Fteik2d.sweep_ok false true tt ttsgn slow (dz, dx, dzi, dxi, dz2i, dx2i) zsi xsi zsa xsa vzero i j sgnvz sgnvx
+         sgntz sgntx nz nx grad = true.
+Proof. exact @DivSafe.sweep_ok_div. Qed.
+
+(* a whole 2D pass *)
+Theorem C03_no_zero_divisor_in_a_pass_2d :
+  forall (tt : arr R) (ttsgn : arr Z) (slow : arr R) (dz dx zsi xsi zsa xsa vzero : R) (nz nx : Z) (grad : bool),
+       (0 < dz)%R -> (0 < dx)%R -> sweep2d_ok false true tt ttsgn slow dz dx zsi xsi zsa xsa vzero nz nx grad = true.
+Proof. exact @DivSafe.sweep2d_ok_div. Qed.
+
+(* locating the source *)
+Theorem C03_no_zero_divisor_locating_the_source_2d :
+  forall (dx dz : R) (grad : bool) (nx nz : Z) (slow : arr R) (xsrc zsrc : R),
+       (0 < dz)%R -> (0 < dx)%R -> fteik2d_p1_ok false true dx dz grad nx nz slow xsrc zsrc = true.
+Proof. exact @DivSafe.fteik2d_p1_ok_div. Qed.
+
+(* PARTIAL: the whole 2D solver (source location, all sweeps, gradient assembly incl. the normalisation under `if gn > 0`) performs no division by zero, GIVEN the same for the source initialisation (`fteik2d_p2_ok false true`), which is not proved: the proof search on that 900-line term exhausted memory; by inspection each of its divisors (`dzu*dz`, `dzd*dz`, `dxw*dx`, `dxe*dx`, `t`, `dz2i+dx2i`) sits under a guard that excludes zero over R, and on binary64 the products can underflow to zero (comment in proofs/DivSafe.v) - which is the kind of input the fix 21dd3ed (F1) addressed; the 3D solver is not covered *)
+Theorem C03_no_zero_divisor_in_the_solver_2d_partial :
+  forall (slow : arr R) (dz dx zsrc xsrc : R) (nsweep : Z) (grad : bool),
+       (0 < dz)%R ->
+       (0 < dx)%R ->
+       (forall (iflag nx nz : Z) (tt G : arr R) (S : arr Z) (vzero xsa : R) (xsi : Z) (zsa : R) (zsi : Z),
+        fteik2d_p2_ok false true dx dz grad iflag nx nz slow tt G S vzero xsa xsi zsa zsi = true) ->
+       fteik2d_ok false true slow dz dx zsrc xsrc nsweep grad = true.
+Proof. exact @DivSafe.fteik2d_ok_div_partial. Qed.
+
 Print Assumptions C03_solve2d_raises_iff_source_outside.
 Print Assumptions C03_solve3d_raises_iff_source_outside.
 Print Assumptions C03_initial_grid_shape_2d.
@@ -1494,3 +1528,7 @@ Print Assumptions C03_source_cell_contains_source_binary64_2d.
 Print Assumptions C03_source_cell_exact_membership_refuted_binary64.
 Print Assumptions C03_solve_result_wiring_2d.
 Print Assumptions C03_solve_result_wiring_3d.
+Print Assumptions C03_no_zero_divisor_in_a_node_update_2d.
+Print Assumptions C03_no_zero_divisor_in_a_pass_2d.
+Print Assumptions C03_no_zero_divisor_locating_the_source_2d.
+Print Assumptions C03_no_zero_divisor_in_the_solver_2d_partial.
